@@ -82,12 +82,25 @@ pub struct Engine {
     pub staker_ledger: i128,
     /// staker / collector / channel were changed by UpdateConfig: cross-chain closure checks of C01 no longer apply
     pub identity_changed: bool,
+    /// properties that speak about the effect of the op just executed on the State totals
+    pub ctx_tags: Vec<&'static str>,
+    /// when set, only comparisons tagged with this property end the history; the first failing
+    /// comparison of any other property is remembered in `first_foreign` and the history goes on
+    /// swept (unbacked) fees were paid out: the contract may hold less than it owes (admin-induced,
+    /// DESIGN 1.1) and entitled payouts can fail for lack of funds
+    pub solvency_void: bool,
+    pub wanted: Option<&'static str>,
+    pub first_foreign: Option<Violation>,
 }
 
 pub type BankDelta = BTreeMap<(String, String), i128>;
 
 impl Engine {
     pub fn new(setup: &Setup) -> Result<Engine, String> {
+        Engine::new_for(setup, None)
+    }
+
+    pub fn new_for(setup: &Setup, wanted: Option<&'static str>) -> Result<Engine, String> {
         let a = Addrs::new(setup);
         let mut ch = new_chain(setup, &a);
         ch.oracle = Some(a.oracle.clone());
@@ -172,6 +185,10 @@ impl Engine {
             native_lst_expected: BTreeMap::new(),
             staker_ledger: 0,
             identity_changed: false,
+            ctx_tags: vec![],
+            solvency_void: false,
+            wanted,
+            first_foreign: None,
         };
         // instantiate must have created the denom (C19) and left the contract halted (C10)
         let created = out.effects.iter().any(|f| matches!(f, Effect::CreateDenom { subdenom, denom, canonical, .. } if subdenom == SUBDENOM && *denom == e.a.lst_denom && *canonical));
@@ -208,8 +225,16 @@ impl Engine {
     }
 
     pub fn chk(&mut self, tags: &[&'static str], cond: bool, msg: impl FnOnce() -> String) {
-        if !cond && self.viol.is_none() {
-            self.viol = Some(Violation { tags: tags.to_vec(), step: self.step, msg: msg() });
+        if cond {
+            return;
+        }
+        let relevant = self.wanted.map(|w| tags.contains(&w)).unwrap_or(true);
+        if relevant {
+            if self.viol.is_none() {
+                self.viol = Some(Violation { tags: tags.to_vec(), step: self.step, msg: msg() });
+            }
+        } else if self.first_foreign.is_none() {
+            self.first_foreign = Some(Violation { tags: tags.to_vec(), step: self.step, msg: msg() });
         }
     }
 
@@ -383,10 +408,16 @@ impl Engine {
             return false;
         }
         match exp {
-            Expect::Ok => self.chk(tags, out.ok, || format!("{what}: model expects success, got error {:?}", out.err)),
-            Expect::Err => self.chk(tags, !out.ok, || format!("{what}: model expects rejection, but it succeeded")),
-            Expect::Any => {}
+            Expect::Ok => {
+                self.chk(tags, out.ok, || format!("{what}: model expects success, got error {:?}", out.err));
+                out.ok
+            }
+            Expect::Err => {
+                self.chk(tags, !out.ok, || format!("{what}: model expects rejection, but it succeeded"));
+                // on a mismatch the model keeps its own prediction (the step is not processed further)
+                false
+            }
+            Expect::Any => out.ok,
         }
-        out.ok
     }
 }
